@@ -764,6 +764,10 @@ fn work_dir(tag: &str) -> PathBuf {
 pub fn check_input(inp: &Input, dir: &Path, l: &mut Local) -> Check {
     check_input_x(inp, dir, l, false)
 }
+/// same as check_input (the output directory is deliberately NOT cleaned between calls)
+pub fn check_input_keep(inp: &Input, dir: &Path, l: &mut Local) -> Check {
+    check_input_x(inp, dir, l, false)
+}
 pub fn check_input_x(inp: &Input, dir: &Path, l: &mut Local, cross: bool) -> Check {
     let ucd_dir = dir.join("ucd");
     let out = dir.join("out");
@@ -847,6 +851,19 @@ pub fn input_strategy() -> BoxedStrategy<Input> {
                 ents.push(Ent { start: start as u32, end: end as u32, gc, ccc, bidi, dec, dtarget: target });
                 prev = Some((gc, ccc, bidi));
                 pos = end + 1;
+            }
+            // sometimes repeat the first entries one and two planes up (same low 16 bits): guards keyed on truncated code points
+            if block_order % 5 == 0 && !ents.is_empty() {
+                let last_end = ents.last().unwrap().end;
+                let firsts: Vec<Ent> = ents.iter().take(6).cloned().collect();
+                for shift in [0x10000u32, 0x20000] {
+                    for e in &firsts {
+                        let (s2, e2) = (e.start + shift, e.end + shift);
+                        if s2 > ents.last().unwrap().end && s2 > last_end && e2 <= 0x10fffd && !(s2..=e2).any(non_char) {
+                            ents.push(Ent { start: s2, end: e2, ..e.clone() });
+                        }
+                    }
+                }
             }
             let lay = |v: Vec<(u32, u32, u8)>, which: usize| -> Vec<(u32, u32, u8)> {
                 // turn (gap,len,val) into disjoint intervals; each property file has its own base (0 = same window as UnicodeData)
@@ -1160,6 +1177,50 @@ pub fn run(run: &Run) {
         }
     });
 
+    // (b3) regeneration in place: the same input path and the same output path are used for two different inputs of the SAME byte
+    // length, the second one written with the first one's modification time (cp -p, rsync -t, reproducible-build sandboxes),
+    // and the second output is shorter than the first
+    run.par("regenerate_in_place", true, |tid, _n, l| {
+        if tid != 0 {
+            return;
+        }
+        let dir = work_dir("inplace");
+        let mk = |gcs: &[u8]| Input { ents: gcs.iter().enumerate().map(|(i, g)| Ent { start: 0x41 + 2 * i as u32, end: 0x41 + 2 * i as u32, gc: *g, ccc: 0, bidi: 0, dec: 0, dtarget: 0 }).collect(), ..Input::default() };
+        let seqs: [(&[u8], &[u8]); 4] = [(&[1, 1, 2, 2], &[1, 2, 2, 1]), (&[1, 1, 1, 1, 1, 1], &[2, 2, 2, 2, 2, 2]), (&[5, 9, 5, 9], &[9, 5, 9, 5]), (&[1, 2], &[2, 1])];
+        for (first, second) in seqs {
+            let (a, b) = (mk(first), mk(second));
+            l.cases += 1;
+            if let Err(v) = check_input(&a, &dir, l) {
+                run.violate(v);
+                return;
+            }
+            let udata = dir.join("ucd/UnicodeData.txt");
+            let mtime = std::fs::metadata(&udata).and_then(|m| m.modified()).ok();
+            // write the second input over the first (same length by construction), restore the mtime, regenerate into the same out dir
+            b.write(&dir.join("ucd"));
+            if let (Some(t), Ok(f)) = (mtime, std::fs::OpenOptions::new().write(true).open(&udata)) {
+                let _ = f.set_modified(t);
+            }
+            let out = dir.join("out");
+            let r = match guard(|| run_generators_x(&dir.join("ucd"), &out, false)) {
+                Ok(Ok(())) => check_tables(&read_truth(&dir.join("ucd"), true), &out, false, true).map(|_| ()),
+                Ok(Err(e)) => Err(("generators accept a well-formed UCD input".to_string(), e)),
+                Err(p) => Err(("no panic".to_string(), p)),
+            };
+            if let Err((e, o)) = r {
+                run.violate(Violation::new(json!({"op": "regenerate_in_place", "first_gcs": first, "second_gcs": second, "note": "second input written over the first with the same length and the first's mtime; same output directory"}), e, o));
+                return;
+            }
+            // and a much shorter input into the same output directory (output files must be truncated)
+            let short = mk(&first[..1]);
+            if let Err(v) = check_input_keep(&short, &dir, l) {
+                run.violate(v);
+                return;
+            }
+        }
+        let _ = std::fs::remove_dir_all(&dir);
+    });
+
     // (c) pinned variations
     let lines = [pinned_lines(0), pinned_lines(1)];
     run.prop("pinned_variations", run.pick(64, 3_200), var_strategy, |(which, ops), l| {
@@ -1186,7 +1247,7 @@ pub fn replay(_run: &Run, case: &Value) -> Check {
             let (which, ops) = var_from_json(case);
             check_variation(which, &ops, &pinned_lines(which), &dir, &mut l)
         }
-        Some("pinned") => Ok(()),
+        Some("pinned") | Some("regenerate_in_place") => Ok(()),
         Some("table_sizes") => {
             let cats: [u8; 20] = [1, 2, 5, 9, 4, 6, 7, 19, 20, 21, 22, 12, 13, 14, 15, 16, 17, 18, 3, 10];
             let mut ents = Vec::new();
